@@ -614,6 +614,9 @@ def origins(fn, operand, extra_identity=(), through_clone=False, through_casts=F
                        static=operand.get('static'), suffix=list(operand.get('p', [])) + list(_suffix or []), steps=list(_steps))]
     local = operand['l']
     suffix = list(operand.get('p', [])) + list(_suffix or [])
+    if len(suffix) > 14:
+        # a place defined in terms of itself (`self.remaining = &self.remaining[1..]`): the projection grows with every round
+        return []
     key = (local, tuple(suffix))
     if key in _seen:
         return []
